@@ -52,12 +52,15 @@ var Check = &run.Check{
 		"Modules stay within 30 lexer events (logical lines + INDENT + DEDENT); 1 module in 40 is 'large' (median 69, up to ~300 events; either structured or 33-70 one-line declarations) and is parsed only in fresh child processes. " +
 		"Every module first has to pass coca's own Python parser (languages/python + counting error listener); a reject is inconclusive. " +
 		"odd index: Go file accepted by go/parser (0-5 imports in 3 layouts, aliases, `_`; 1-6 structs with 0-5 field lines incl. `a, b T`, tags, embedded fields, pointer/slice/map/func/chan/qualified types; 0-3 interfaces incl. empty and embedding ones; single or grouped type declarations; " +
-		"methods on value/pointer/unnamed receivers placed after their type; 0-4 free functions incl. `a, b T` and variadic parameters, named results; bodies of package-qualified and receiver/parameter call statements, unqualified calls, defer, := and = assignments, returns). " +
+		"import paths as interpreted or raw string literals; blank-identifier parameters and fields; methods on value/pointer/unnamed receivers placed below or above their type; 0-4 free functions incl. `a, b T` and variadic parameters, named results, declarations without a body; bodies of package-qualified and receiver/parameter call statements, unqualified calls, defer, := and = assignments, returns). " +
 		"Observed: pyapp.PythonIdentApp.Analysis, goapp.GoIdentApp.Analysis or ast_go.CocagoParser.ProcessString per file; analysis.CommonAnalysis on the directory; for every 4th (quick) / 8th (thorough) case of each language the real mains `coca-python analysis -p` / `coca-golang analysis -p` (coca_reporter/pydeps.json, godeps.json). " +
 		"non-trivial = Python: a class with a method + a decorator + an import; Go: >= 2 type declarations + a method + an asserted call statement; distinct = hash of the structural shape of the primary file (kinds, counts, order, layout; no names) and the number of files",
 	Assumptions: []string{
 		"every planted name is unique within a file (ids), so one observation matches at most one planted event; a type/function name deliberately declared in two files of a case is demanded with multiset semantics in the flattened model (CommonAnalysis, *deps.json): as many entries as declarations, entries matched to declarations by their (unique) members",
-		"methods are declared after their receiver type in the same file (methods before the type are not generated)",
+		"methods have their receiver type declared in the same file, below or (interleaved layout, one method in four placed anywhere) above the method; a method is demanded under its own struct exactly once either way",
+		"a parameter or field named with the blank identifier is a parameter / field: it is demanded as an entry named _, and a parameter list is demanded with its written arity (functions, methods, interface methods); unnamed parameters are not generated",
+		"an import path written as a raw string literal is demanded under the path without any quote character",
+		"a function declaration without a body is demanded as a function with its parameters",
 		"nested defs may additionally be listed anywhere; unplanted names are not counted against the model",
 		"only calls written as a statement with a package qualifier or a receiver/parameter variable are asserted; deferred, unqualified, right-hand-side and returned calls are generated but free",
 		"an import's own name is its path (Go: as written or with '/' replaced by '.', the front-end's convention) resp. its dotted module name (Python); aliases are not asserted except that a from-imported name must be listed as the name, the alias or `name as alias`",
@@ -815,6 +818,44 @@ func goDimensions(o *run.Outcome, f *gopygen.GoFile) {
 			if len(fl.Names) == 0 {
 				o.Count("dim_go_embedded_field", 1)
 			}
+		}
+	}
+	for _, im := range f.Imports {
+		if im.Raw && im.Alias != "" {
+			o.Count("dim_go_raw_string_import_with_alias", 1)
+		} else if im.Raw {
+			o.Count("dim_go_raw_string_import", 1)
+		}
+	}
+	blank := func(fs []gopygen.GoField) int {
+		n := 0
+		for _, fl := range fs {
+			for _, name := range fl.Names {
+				if name == "_" {
+					n++
+				}
+			}
+		}
+		return n
+	}
+	for _, s := range f.Structs() {
+		o.Count("dim_go_blank_field", blank(s.Fields))
+	}
+	for _, it := range f.Ifaces() {
+		for _, m := range it.Methods {
+			o.Count("dim_go_blank_param_in_interface_method", blank(m.Fields))
+		}
+	}
+	for _, fn := range f.Funcs() {
+		o.Count("dim_go_blank_param_in_function", blank(fn.Params))
+		if fn.NoBody {
+			o.Count("dim_go_function_without_body", 1)
+		}
+	}
+	for _, m := range f.Methods() {
+		o.Count("dim_go_blank_param_in_method", blank(m.Params))
+		if m.AboveType {
+			o.Count("dim_go_method_above_its_receiver_type", 1)
 		}
 	}
 	for _, m := range f.Methods() {
